@@ -241,7 +241,11 @@ func runCase(line string, count func(string)) (impl, oracle string) {
 				return "bad-op", ""
 			}
 			before := len(lines)
-			n, err := p.Write(data)
+			scratch := append([]byte(nil), data...)
+			n, err := p.Write(scratch)
+			for k := range scratch { // io.Writer must not retain p: callers reuse their buffer
+				scratch[k] ^= 0xA5
+			}
 			outs = append(outs, fmt.Sprintf("%d/%s[%s]", n, errName(err), showLines(lines[before:])))
 			if limit > 0 && pending+len(data) > limit {
 				if err != stream.ErrMaximumBufferSizeExceeded || n != 0 {
